@@ -4105,3 +4105,241 @@ func ruleRollbackRC(c *Ctx) {
 		}
 	}
 }
+
+// ---------------------------------------------------------------------------
+// epoch-mirror (C19) - the list of script hashes allowed to send extensible payloads (consensus messages travel as
+// such) is a mirror, kept outside the DAO, of native NEO's next block validators. NEO.OnPersist replaces
+// nextValidators while it persists block i exactly when ShouldUpdateCommitteeAt(i); the ledger must rebuild the
+// mirror for the same i - evaluated after the block is stored - or the payloads of newly elected validators are
+// refused by every node's pool until some other reason rebuilds the list. Both conditions are brought into the form
+// ShouldUpdateCommitteeAt(<index of the block being persisted> + k) and the constants compared.
+func ruleEpochMirror(c *Ctx) {
+	const should = "pkg/config.(*ProtocolConfiguration).ShouldUpdateCommitteeAt"
+	on := c.P.Func("pkg/core/native", "NEO", "OnPersist")
+	mir := c.P.Func("pkg/core", "Blockchain", "updateExtensibleWhitelist")
+	sb := c.P.Func("pkg/core", "Blockchain", "storeBlock")
+	if on == nil || mir == nil || sb == nil {
+		c.Lost("epoch-mirror.anchor", "NEO.OnPersist / Blockchain.updateExtensibleWhitelist / storeBlock not found")
+		return
+	}
+	// writer side
+	fo := c.P.NewFuncCFG(on)
+	wOff, wOK := int64(0), false
+	ast.Inspect(on.Decl.Body, func(x ast.Node) bool {
+		is, ok := x.(*ast.IfStmt)
+		if !ok {
+			return true
+		}
+		call, ok := ast.Unparen(is.Cond).(*ast.CallExpr)
+		if !ok || fo.calleeSym(call) != should || len(call.Args) != 1 {
+			return true
+		}
+		writes := false
+		ast.Inspect(is.Body, func(y ast.Node) bool {
+			for _, w := range nodeWrites(fo.Info, y, false) {
+				if w.Field == "pkg/core/native#nextValidators" {
+					writes = true
+				}
+			}
+			return !writes
+		})
+		if !writes {
+			return true
+		}
+		if _, off, ok := linearForm(fo, call.Args[0], 0); ok && fo.DirectMentions(call.Args[0])[fldBlockIndex] {
+			wOff, wOK = off, true
+		}
+		return true
+	})
+	if !wOK {
+		c.Lost("epoch-mirror.writer", "NEO.OnPersist no longer replaces nextValidators under ShouldUpdateCommitteeAt(ic.Block.Index + k)")
+		return
+	}
+	// mirror side
+	fm := c.P.NewFuncCFG(mir)
+	sites := fm.CallSites(should)
+	if len(sites) != 1 || len(sites[0].call.Args) != 1 {
+		c.Fail("epoch-mirror.refresh", c.P.Pos(mir.Decl.Pos()), fmt.Sprintf("updateExtensibleWhitelist is expected to ask ShouldUpdateCommitteeAt once, found %d calls: the mirror of NEO's next validators is no longer refreshed by the epoch condition", len(sites)))
+		return
+	}
+	_, rOff, rOK := linearForm(fm, sites[0].call.Args[0], 0)
+	if !rOK || !fm.DirectMentions(sites[0].call.Args[0])["param#0"] {
+		c.Unclassified("epoch-mirror.refresh", c.P.Pos(sites[0].call.Pos()), "the argument of ShouldUpdateCommitteeAt is not <height parameter> + constant")
+		return
+	}
+	// the caller in storeBlock hands over the index of the block just stored
+	fs := c.P.NewFuncCFG(sb)
+	cOff, cOK := int64(0), false
+	for _, s := range fs.CallSites("pkg/core.(*Blockchain).updateExtensibleWhitelist") {
+		if len(s.call.Args) == 1 && fs.DirectMentions(s.call.Args[0])[fldBlockIndex] {
+			if _, off, ok := linearForm(fs, s.call.Args[0], 0); ok {
+				cOff, cOK = off, true
+			}
+		}
+	}
+	if !cOK {
+		c.Unclassified("epoch-mirror.caller", c.P.Pos(sb.Decl.Pos()), "storeBlock no longer calls updateExtensibleWhitelist(block.Index + constant)")
+		return
+	}
+	if rOff+cOff == wOff {
+		c.OK("epoch-mirror.refresh", c.P.Pos(sites[0].call.Pos()), fmt.Sprintf("NEO.OnPersist replaces nextValidators when ShouldUpdateCommitteeAt(index%+d); the mirror is rebuilt for ShouldUpdateCommitteeAt(index%+d) of the same block", wOff, rOff+cOff))
+	} else {
+		c.Fail("epoch-mirror.refresh", c.P.Pos(sites[0].call.Pos()), fmt.Sprintf("NEO.OnPersist replaces nextValidators while persisting block i when ShouldUpdateCommitteeAt(i%+d), but the extensible-sender list that mirrors them is rebuilt when ShouldUpdateCommitteeAt(i%+d): at an epoch boundary with a changed validator set the list stays stale and every node's pool refuses the consensus payloads of the newly elected validators", wOff, rOff+cOff))
+	}
+}
+
+// ---------------------------------------------------------------------------
+// revalidate-covers-admission (C06, C07, C19) - verifyBlock (consensus) and AddBlock do not verify a transaction of
+// a block again when it is in the node's pool, so the pool has to hold valid transactions *at every height*: after
+// each block RemoveStale filters it through Blockchain.IsTxStillRelevant. Every admission check of verifyAndPoolTx
+// that reads chain state (a committee decision can change that state at any block: blocked accounts, fee per byte,
+// attribute fees, execution fee factor, validity window) must therefore be repeated by IsTxStillRelevant on every
+// path that answers "still relevant". Otherwise a transaction the new state invalidates stays pooled, is proposed,
+// is accepted unverified by every node that has it pooled and rejected by every node that has not.
+// The admission checks are not tabled: they are the module functions verifyAndPoolTx calls directly that reach a
+// read of the DAO or of a native cache.
+func ruleRevalidateCoversAdmission(c *Ctx) {
+	adm := c.P.Func("pkg/core", "Blockchain", "verifyAndPoolTx")
+	rev := c.P.Func("pkg/core", "Blockchain", "IsTxStillRelevant")
+	if adm == nil || rev == nil {
+		c.Lost("revalidate.anchor", "verifyAndPoolTx / IsTxStillRelevant not found")
+		return
+	}
+	g := c.P.MRG()
+	fa, fr := c.P.NewFuncCFG(adm), c.P.NewFuncCFG(rev)
+	readsState := func(fn *ssa.Function) bool {
+		via := g.Reach([]*ssa.Function{fn}, nil)
+		for f := range via {
+			k := FnKey(f)
+			if strings.HasPrefix(k, "pkg/core/dao.(*Simple).Get") || k == "pkg/core/dao.(*Simple).GetROCache" || k == "pkg/core/dao.(*Simple).HasTransaction" ||
+				strings.HasPrefix(k, "pkg/core/storage.(*MemCachedStore).Get") {
+				return true
+			}
+		}
+		return false
+	}
+	// equivalents accepted on the re-validation side, with the reason
+	equiv := map[string][]string{
+		"pkg/core/dao.(*Simple).HasTransaction": {"pkg/core/mempool.(*Pool).HasConflicts"}, // with a pool at hand the on-chain records of the new block were applied to the pool by storeBlock already; what remains is the pool's own conflict index
+	}
+	skip := map[string]string{
+		"pkg/core.(*Blockchain).BlockHeight": "the height itself; both functions read it for the expiry test",
+		"pkg/core/mempool.(*Pool).Add":       "the pooling step, not a check",
+	}
+	seen := map[string]bool{}
+	n := 0
+	nd := g.Nodes[c.P.SSAFunc(adm.Obj)]
+	if nd == nil {
+		c.Lost("revalidate.graph", "verifyAndPoolTx has no node in the call graph")
+		return
+	}
+	oks := fr.OKReturnsTrue()
+	// call sites of IsTxStillRelevant by resolved callee
+	rnd := g.Nodes[c.P.SSAFunc(rev.Obj)]
+	sitesOf := func(keys []string) []site {
+		var out []site
+		if rnd == nil {
+			return nil
+		}
+		for _, e := range rnd.Out {
+			if e.Site == nil || !e.Site.Pos().IsValid() {
+				continue
+			}
+			hit := false
+			for _, k := range keys {
+				if FnKey(e.Callee.Fn) == k {
+					hit = true
+				}
+			}
+			if !hit {
+				continue
+			}
+			for _, b := range fr.G.Blocks {
+				if !b.Live {
+					continue
+				}
+				for i, nd := range b.Nodes {
+					if nd.Pos() <= e.Site.Pos() && e.Site.Pos() < nd.End() {
+						out = append(out, site{blk: b, idx: i, node: nd})
+					}
+				}
+			}
+		}
+		return out
+	}
+	// calls nested in the arguments of another call only feed that call (HasTransaction(..., bc.GetMaxTraceableBlocks()))
+	nested := map[token.Pos]bool{}
+	ast.Inspect(adm.Decl.Body, func(x ast.Node) bool {
+		if call, ok := x.(*ast.CallExpr); ok {
+			for _, a := range call.Args {
+				ast.Inspect(a, func(y ast.Node) bool {
+					if in, ok := y.(*ast.CallExpr); ok {
+						nested[in.Lparen] = true
+					}
+					return true
+				})
+			}
+		}
+		return true
+	})
+	for _, e := range nd.Out {
+		if e.Kind != "static" && e.Kind != "iface" {
+			continue
+		}
+		callee := e.Callee.Fn
+		k := FnKey(callee)
+		if seen[k] || skip[k] != "" || !fnInModule(callee) || !readsState(callee) {
+			continue
+		}
+		if ci, ok := e.Site.(ssa.CallInstruction); ok && ci.Common() != nil && nested[ci.Pos()] {
+			continue
+		}
+		seen[k] = true
+		n++
+		key := "revalidate." + shortSym(k)
+		sites := sitesOf(append([]string{k}, equiv[k]...))
+		if len(sites) == 0 {
+			c.Fail(key, c.P.Pos(rev.Decl.Pos()), fmt.Sprintf("verifyAndPoolTx admits a transaction only after %s, which reads chain state; IsTxStillRelevant, the filter the pool is run through after every block, never repeats it: a pooled transaction that a later block invalidates on this count stays pooled, gets proposed and is accepted without verification by the nodes that have it pooled while every other node rejects the block", k))
+			continue
+		}
+		var targets []site
+		for _, r := range oks {
+			own := false
+			for _, s := range sites {
+				if s.blk == r.blk && s.idx == r.idx {
+					own = true // `return check(...) == nil`: the check is made on this exit
+				}
+			}
+			if !own {
+				targets = append(targets, r)
+			}
+		}
+		if ok, path := fr.mustBefore(fr.Entry(), targets, sites, nil); ok {
+			c.OK(key, c.P.Pos(sites[0].node.Pos()), "repeated by IsTxStillRelevant on every path that answers true")
+		} else {
+			extra := ""
+			if strings.HasSuffix(k, ".verifyTxWitnesses") {
+				extra = " (it is skipped when every witness is a standard signature contract, but the execution fee factor prices the verification of standard witnesses too)"
+			}
+			c.Fail(key, c.P.Pos(sites[0].node.Pos()), fmt.Sprintf("IsTxStillRelevant repeats %s only on some of the paths that answer true%s: the state this check reads can change at any block, and a pooled transaction that no longer passes it stays pooled, is proposed and is rejected by every node that has to verify it", k, extra), path...)
+		}
+	}
+	c.Floor("state-dependent admission checks", n, 6)
+	_ = fa
+}
+
+// OKReturnsTrue: the return sites of a bool function that may return true (anything but the literal false).
+func (f *FuncCFG) OKReturnsTrue() []site {
+	var out []site
+	for _, r := range f.Returns() {
+		rs, ok := r.node.(*ast.ReturnStmt)
+		if !ok || len(rs.Results) != 1 {
+			continue
+		}
+		if v, ok := boolConst(f.Info, rs.Results[0]); ok && !v {
+			continue
+		}
+		out = append(out, r)
+	}
+	return out
+}
